@@ -77,6 +77,21 @@ theorem nft_guards_pinned : Irismod.Gen.PureNft.guards =
      "Keeper.RemoveNFT: err := k.Authorize(ctx, denomID, tokenID, owner); err != nil",
      "Keeper.SaveNFT: data, err := codectypes.NewAnyWithValue(nftMetadata); err != nil"] := rfl
 
+/-- every statement of these functions executed for its effect — a call whose result is dropped (store and bank
+writes, queue moves, hooks) or a write to a record field — with its nesting depth, in source order: a write that is
+dropped, duplicated, reordered or moved into or out of a branch breaks this -/
+theorem nft_effects_pinned : Irismod.Gen.PureNft.effects =
+    ["UpdateNFT: d0 token.Uri = types.Modify(token.Uri, tokenURI)",
+     "UpdateNFT: d0 token.UriHash = types.Modify(token.UriHash, tokenURIHash)",
+     "UpdateNFT: d1 nftMetadata.Name = types.Modify(nftMetadata.Name, tokenNm)",
+     "UpdateNFT: d1 nftMetadata.Data = types.Modify(nftMetadata.Data, tokenData)",
+     "UpdateNFT: d1 token.Data = data",
+     "TransferOwnership: d0 token.Uri = types.Modify(token.Uri, tokenURI)",
+     "TransferOwnership: d0 token.UriHash = types.Modify(token.UriHash, tokenURIHash)",
+     "TransferOwnership: d1 nftMetadata.Name = types.Modify(nftMetadata.Name, tokenNm)",
+     "TransferOwnership: d1 nftMetadata.Data = types.Modify(nftMetadata.Data, tokenData)",
+     "TransferOwnership: d1 token.Data = data"] := rfl
+
 /-- the do-not-modify sentinel -/
 def sentinel : String := "[do-not-modify]"
 
